@@ -82,7 +82,8 @@ impl PropertyRun {
             let tape: Vec<u32> = v["tape"].as_array().map(|a| a.iter().map(|x| x.as_u64().unwrap_or(0) as u32).collect()).unwrap_or_default();
             let rs = v["run_seed"].as_u64().unwrap_or(0);
             let nonce = v["nonce"].as_u64().unwrap_or(0);
-            let out = case(rs, nonce, Some(tape));
+            let file_gen = v["gen"].as_u64().unwrap_or(1) as u32;
+            let out = crate::tape::with_gen(file_gen, || case(rs, nonce, Some(tape)));
             if out.violations.first().map(|x| x.signature == k.signature).unwrap_or(false) {
                 println!("KNOWN-FINDING: property={} {} {}", self.property, k.signature, k.what);
                 self.known_hit.push(k.signature.clone());
@@ -179,6 +180,7 @@ impl PropertyRun {
             "run_seed": rs,
             "nonce": nonce,
             "tape": min_tape,
+            "gen": crate::tape::CURRENT_GEN,
             "orig_tape_len": orig_len,
             "minimised": reproduces,
             "build_profile": if cfg!(debug_assertions) { "checked" } else { "release" },
@@ -354,7 +356,8 @@ pub fn replay_file(path: &str, lookup: &dyn Fn(&str, &str) -> Option<Box<CaseFn>
     let rs = v["run_seed"].as_u64().unwrap_or(0);
     let nonce = v["nonce"].as_u64().unwrap_or(0);
     println!("seed={} replay of {} {}/{} run_seed={} tape_len={}", v["seed"], path, property, check, rs, tape.len());
-    let out = case(rs, nonce, Some(tape));
+    let file_gen = v["gen"].as_u64().unwrap_or(1) as u32;
+    let out = crate::tape::with_gen(file_gen, || case(rs, nonce, Some(tape)));
     for line in &out.trace {
         println!("  {}", line);
     }
